@@ -323,5 +323,222 @@ func extractC01(c *Ctx) error {
 	sweepCmp := mentions(cl, token.LSS, "batch.BatchTimeout", "currentTime")
 	c.P("Definition sweep_cancels_when_timeout_lt_now : bool := %v.", sweepCmp)
 	c.Info("sweep_cancels_when_timeout_lt_now", sweepCmp)
+	return extractC01Round2(c, kfiles, abci, cached)
+}
+
+// c01PanicSafe: the function's commit() cannot run while a panic unwinds: it is not inside a deferred
+// function literal, or that literal first re-raises a recovered panic (`if r := recover(); r != nil { panic(r) }`).
+func c01PanicSafe(c *Ctx, fd *ast.FuncDecl) bool {
+	safe := true
+	ast.Inspect(fd.Body, func(x ast.Node) bool {
+		ds, ok := x.(*ast.DeferStmt)
+		if !ok {
+			return true
+		}
+		fl, ok := ds.Call.Fun.(*ast.FuncLit)
+		if !ok || len(Calls(fl.Body, "commit")) == 0 {
+			return true
+		}
+		// the statement before the one holding commit() must be the re-raise
+		reraised := false
+		for _, st := range fl.Body.List {
+			if len(Calls(st, "commit")) > 0 {
+				break
+			}
+			if is, ok := st.(*ast.IfStmt); ok && is.Init != nil && len(Calls(is.Init, "recover")) == 1 && len(Calls(is.Body, "panic")) == 1 {
+				reraised = true
+			}
+		}
+		if !reraised {
+			safe = false
+		}
+		return true
+	})
+	return safe
+}
+
+// funcs containing a call of the given name (function declarations of the files, by name)
+func c01Callers(files []*ast.File, callee string) []string {
+	set := map[string]bool{}
+	for _, f := range files {
+		for _, d := range f.Decls {
+			if fd, ok := d.(*ast.FuncDecl); ok && fd.Body != nil && len(Calls(fd.Body, callee)) > 0 {
+				set[fd.Name.Name] = true
+			}
+		}
+	}
+	return SortedSet(set)
+}
+
+func extractC01Round2(c *Ctx, kfiles []*ast.File, abci *ast.File, cached []string) error {
+	need := func(files []*ast.File, recv, name string) (*ast.FuncDecl, error) {
+		fd := FindFuncIn(files, recv, name)
+		if fd == nil || fd.Body == nil {
+			return nil, fmt.Errorf("function %s.%s not found", recv, name)
+		}
+		return fd, nil
+	}
+	// --- which cached-context functions survive a collaborator panic without committing ---
+	var psafe []string
+	for _, n := range cached {
+		fd, err := need(kfiles, "Keeper", n)
+		if err != nil {
+			return err
+		}
+		if c01PanicSafe(c, fd) {
+			psafe = append(psafe, n)
+		}
+	}
+	c.P("(* cached-context functions whose commit() cannot run while a panic unwinds *)")
+	c.P("Definition panic_safe_commit_fns : list string := %s.", CoqStrList(psafe))
+	c.Info("panic_safe_commit_fns", psafe)
+	eb, err := need([]*ast.File{abci}, "", "EndBlocker")
+	if err != nil {
+		return err
+	}
+	recovers := false
+	for _, st := range eb.Body.List {
+		if ds, ok := st.(*ast.DeferStmt); ok && len(Calls(ds.Call, "recover")) == 1 {
+			recovers = true
+		}
+	}
+	c.P("Definition endblocker_recovers_panics : bool := %v.", recovers)
+	c.Info("endblocker_recovers_panics", recovers)
+
+	// --- the denom table: who writes it, who deletes from it, which writers check the binding first ---
+	writers, deleters := map[string]bool{}, map[string]bool{}
+	for _, f := range kfiles {
+		for _, d := range f.Decls {
+			fd, ok := d.(*ast.FuncDecl)
+			if !ok || fd.Body == nil {
+				continue
+			}
+			ast.Inspect(fd.Body, func(x ast.Node) bool {
+				ce, ok := x.(*ast.CallExpr)
+				if !ok {
+					return true
+				}
+				src := c.Src(ce)
+				if !strings.Contains(src, "GetDenomToERC20Key") && !strings.Contains(src, "GetERC20ToDenomKey") {
+					return true
+				}
+				n := ""
+				switch f := ce.Fun.(type) {
+				case *ast.SelectorExpr:
+					n = f.Sel.Name
+				case *ast.Ident:
+					n = f.Name
+				}
+				switch n {
+				case "Save", "Set":
+					writers[fd.Name.Name] = true
+				case "Delete":
+					deleters[fd.Name.Name] = true
+				}
+				return true
+			})
+		}
+	}
+	c.P("(* functions that write / delete entries of the DenomToERC20 / ERC20ToDenom indexes *)")
+	c.P("Definition denom_table_writers : list string := %s.", CoqStrList(SortedSet(writers)))
+	c.P("Definition denom_table_deleters : list string := %s.", CoqStrList(SortedSet(deleters)))
+	c.Info("denom_table_writers", SortedSet(writers))
+	c.Info("denom_table_deleters", SortedSet(deleters))
+	callers := c01Callers(kfiles, "setDenomToERC20")
+	c.P("Definition setDenomToERC20_callers : list string := %s.", CoqStrList(callers))
+	c.Info("setDenomToERC20_callers", callers)
+	var checking []string
+	for _, n := range callers {
+		for _, f := range kfiles {
+			for _, d := range f.Decls {
+				fd, ok := d.(*ast.FuncDecl)
+				if !ok || fd.Body == nil || fd.Name.Name != n {
+					continue
+				}
+				sets := Calls(fd.Body, "setDenomToERC20")
+				gets := Calls(fd.Body, "GetDenomOfERC20")
+				if len(sets) > 0 && len(gets) > 0 && gets[0].Pos() < sets[0].Pos() && strings.Contains(c.Src(fd.Body), "ErrDuplicateBinding") {
+					checking = append(checking, n)
+				}
+			}
+		}
+	}
+	c.P("(* ... of which look the contract up first and refuse a bound one (ErrDuplicateBinding) *)")
+	c.P("Definition setDenomToERC20_callers_checking_binding : list string := %s.", CoqStrList(checking))
+	c.Info("setDenomToERC20_callers_checking_binding", checking)
+	sd, err := need(kfiles, "Keeper", "setDenomToERC20")
+	if err != nil {
+		return err
+	}
+	so := c01CallOrder(sd, c01Set("GetDenomToERC20Key", "GetERC20ToDenomKey"))
+	c.P("Definition order_setDenomToERC20 : list string := %s.", CoqStrList(so))
+	c.Info("order_setDenomToERC20", so)
+	ad, err := need(kfiles, "msgServer", "SetERC20ToTokenDenom")
+	if err != nil {
+		return err
+	}
+	ao := c01CallOrder(ad, c01Set("GetChainInfo", "GetAuthorityMetadata", "GetDenomOfERC20", "setDenomToERC20"))
+	c.P("Definition order_SetERC20ToTokenDenom : list string := %s.", CoqStrList(ao))
+	c.Info("order_SetERC20ToTokenDenom", ao)
+
+	// --- the transfer-limit check and the tax come before anything is written ---
+	ap, err := need(kfiles, "Keeper", "AddToOutgoingPool")
+	if err != nil {
+		return err
+	}
+	apo := c01CallOrder(ap, c01Set("UpdateBridgeTransferUsageWithLimit", "bridgeTaxAmount", "GetERC20OfDenom", "SendCoinsFromAccountToModule"))
+	c.P("Definition order_AddToOutgoingPool_checks : list string := %s.", CoqStrList(apo))
+	c.Info("order_AddToOutgoingPool_checks", apo)
+
+	// --- the end-blocker's steps ---
+	cb, err := need([]*ast.File{abci}, "", "createBatch")
+	if err != nil {
+		return err
+	}
+	cbo := c01CallOrder(cb, c01Set("GetAllERC20ToDenoms", "GetERC20OfDenom", "BuildOutgoingTXBatch"))
+	c.P("Definition order_createBatch : list string := %s.", CoqStrList(cbo))
+	c.Info("order_createBatch", cbo)
+	ta, err := need(kfiles, "Keeper", "TryAttestation")
+	if err != nil {
+		return err
+	}
+	tao := c01CallOrder(ta, c01Set("SetLastObservedEthereumBlockHeight", "setLastObservedSkywayNonce", "SetAttestation", "processAttestation", "emitObservedEvent"))
+	c.P("Definition order_TryAttestation : list string := %s.", CoqStrList(tao))
+	c.Info("order_TryAttestation", tao)
+	eo, err := need(kfiles, "Keeper", "emitObservedEvent")
+	if err != nil {
+		return err
+	}
+	eoo := c01CallOrder(eo, c01Set("GetChainInfo"))
+	c.P("Definition order_emitObservedEvent : list string := %s.", CoqStrList(eoo))
+	c.Info("order_emitObservedEvent", eoo)
+	pg, err := need([]*ast.File{abci}, "", "processGasEstimates")
+	if err != nil {
+		return err
+	}
+	pgo := c01CallOrder(pg, c01Set("IterateOutgoingTxBatches", "GetBatchGasEstimateByNonceAndTokenContract", "VerifyGasEstimates", "UpdateBatchGasEstimate"))
+	c.P("Definition order_processGasEstimates : list string := %s.", CoqStrList(pgo))
+	c.Info("order_processGasEstimates", pgo)
+	// processAttestation swallows the handler's error (returns nil after logging) and commits only in the else branch
+	pa, err := need(kfiles, "Keeper", "processAttestation")
+	if err != nil {
+		return err
+	}
+	swallow := false
+	ast.Inspect(pa.Body, func(x ast.Node) bool {
+		is, ok := x.(*ast.IfStmt)
+		if !ok || is.Init == nil || len(Calls(is.Init, "Handle")) != 1 || is.Else == nil {
+			return true
+		}
+		if len(Calls(is.Body, "commit")) == 0 && len(Calls(is.Else, "commit")) == 1 {
+			swallow = true
+		}
+		return true
+	})
+	if last, ok := pa.Body.List[len(pa.Body.List)-1].(*ast.ReturnStmt); !ok || len(last.Results) != 1 || c.Src(last.Results[0]) != "nil" {
+		swallow = false
+	}
+	c.P("Definition processAttestation_commits_only_on_handler_success_and_returns_nil : bool := %v.", swallow)
+	c.Info("processAttestation_commits_only_on_handler_success_and_returns_nil", swallow)
 	return nil
 }
